@@ -265,24 +265,31 @@ def downstream_fail_run(ctx):
     complete = count_lines(os.path.join(p0['ckdir'], final_rel))
     points = [(0, 0), (0, 2), (0, 4), (1, 0), (1, 2)]
     kinds = ['ValueError', 'KeyboardInterrupt', 'SystemExit']
-    for n, (ri, at) in enumerate(points):
-        for kind in (kinds if ctx.quick is False or n % 2 == 0 else kinds[:1]):
-            d, p = fresh('d%d_%d_%s' % (ri, at, kind))
-            p['down_fail_at'] = [ri, at, kind]
-            r = fsfault.run_child('harness.props.c08:build', p, p['ckdir'], d, 'fail')
-            case = {'rows_per_resource': shape, 'step_behind_the_checkpoint_fails_at': [ri, at], 'with': kind}
-            rep.case('downstream-failure', case, key=['downfail', ri, at, kind])
-            if r['returncode'] == 0 and r['result'] is not None:
-                rep.fail('downstream-failure-did-not-fail-the-run', case, {})
-            final = os.path.join(p['ckdir'], final_rel)
-            if os.path.exists(final) and count_lines(final) != complete:
-                rep.fail('incomplete-checkpoint-published', case, {'lines': count_lines(final), 'complete': complete,
-                                                                   'ops': [o[1] for o in r['trace']][-4:]})
-            del p['down_fail_at']
-            r2 = fsfault.run_child('harness.props.c08:build', p, p['ckdir'], d, 'rerun')
-            if r2['result'] != b['result']:
-                rep.fail('next-run-differs-after-failure', case, {'rows': [len(x) for x in (r2['result'] or {}).get('rows', [])]})
-            shutil.rmtree(d, ignore_errors=True)
+    tasks = [(ri, at, kind) for n, (ri, at) in enumerate(points) for kind in (kinds if ctx.quick is False or n % 2 == 0 else kinds[:1])]
+
+    def one(task):
+        ri, at, kind = task
+        d, p = fresh('d%d_%d_%s' % (ri, at, kind))
+        p['down_fail_at'] = [ri, at, kind]
+        r = fsfault.run_child('harness.props.c08:build', p, p['ckdir'], d, 'fail')
+        final = os.path.join(p['ckdir'], final_rel)
+        lines = count_lines(final) if os.path.exists(final) else None
+        del p['down_fail_at']
+        r2 = fsfault.run_child('harness.props.c08:build', p, p['ckdir'], d, 'rerun')
+        shutil.rmtree(d, ignore_errors=True)
+        return task, r, lines, r2
+    with concurrent.futures.ThreadPoolExecutor(max_workers=8) as ex:
+        results = list(ex.map(one, tasks))
+    for (ri, at, kind), r, lines, r2 in results:
+        case = {'rows_per_resource': shape, 'step_behind_the_checkpoint_fails_at': [ri, at], 'with': kind}
+        rep.case('downstream-failure', case, key=['downfail', ri, at, kind])
+        if r['returncode'] == 0 and r['result'] is not None:
+            rep.fail('downstream-failure-did-not-fail-the-run', case, {})
+        if lines is not None and lines != complete:
+            rep.fail('incomplete-checkpoint-published', case, {'lines': lines, 'complete': complete,
+                                                               'ops': [o[1] for o in r['trace']][-4:]})
+        if r2['result'] != b['result']:
+            rep.fail('next-run-differs-after-failure', case, {'rows': [len(x) for x in (r2['result'] or {}).get('rows', [])]})
     shutil.rmtree(base, ignore_errors=True)
 
 
@@ -303,24 +310,30 @@ def row_function_fail_run(ctx):
     if b['returncode'] != 0 or b['result'] is None:
         raise RuntimeError('baseline child failed: %r %s' % (b['returncode'], b['stderr']))
     complete = count_lines(os.path.join(p0['ckdir'], final_rel))
-    for name in ('r0-0', 'r0-2', 'r1-1'):
-        for where in ('before', 'after'):
-            for kind in ('StopIteration', 'ValueError'):
-                d, p = fresh('%s_%s_%s' % (name, where, kind))
-                p['row_fail'] = {'name': name, 'where': where, 'kind': kind}
-                r = fsfault.run_child('harness.props.c08:build', p, p['ckdir'], d, 'fail')
-                case = {'rows_per_resource': shape, 'row_function': where + ' the checkpoint', 'raises': kind, 'at_row': name}
-                rep.case('row-function-failure', case, key=['rowfail', name, where, kind])
-                if r['returncode'] == 0 and r['result'] is not None:
-                    rep.fail('failing-row-function-did-not-fail-the-run', case, {'rows': [len(x) for x in r['result'].get('rows', [])]})
-                final = os.path.join(p['ckdir'], final_rel)
-                if os.path.exists(final) and count_lines(final) != complete:
-                    rep.fail('incomplete-checkpoint-published', case, {'lines': count_lines(final), 'complete': complete})
-                del p['row_fail']
-                r2 = fsfault.run_child('harness.props.c08:build', p, p['ckdir'], d, 'rerun')
-                if r2['result'] != b['result']:
-                    rep.fail('next-run-differs-after-failure', case, {'rows': [len(x) for x in (r2['result'] or {}).get('rows', [])]})
-                shutil.rmtree(d, ignore_errors=True)
+    tasks = [(name, where, kind) for name in ('r0-0', 'r0-2', 'r1-1') for where in ('before', 'after') for kind in ('StopIteration', 'ValueError')]
+
+    def one(task):
+        name, where, kind = task
+        d, p = fresh('%s_%s_%s' % (name, where, kind))
+        p['row_fail'] = {'name': name, 'where': where, 'kind': kind}
+        r = fsfault.run_child('harness.props.c08:build', p, p['ckdir'], d, 'fail')
+        final = os.path.join(p['ckdir'], final_rel)
+        lines = count_lines(final) if os.path.exists(final) else None
+        del p['row_fail']
+        r2 = fsfault.run_child('harness.props.c08:build', p, p['ckdir'], d, 'rerun')
+        shutil.rmtree(d, ignore_errors=True)
+        return task, r, lines, r2
+    with concurrent.futures.ThreadPoolExecutor(max_workers=8) as ex:
+        results = list(ex.map(one, tasks))
+    for (name, where, kind), r, lines, r2 in results:
+        case = {'rows_per_resource': shape, 'row_function': where + ' the checkpoint', 'raises': kind, 'at_row': name}
+        rep.case('row-function-failure', case, key=['rowfail', name, where, kind])
+        if r['returncode'] == 0 and r['result'] is not None:
+            rep.fail('failing-row-function-did-not-fail-the-run', case, {'rows': [len(x) for x in r['result'].get('rows', [])]})
+        if lines is not None and lines != complete:
+            rep.fail('incomplete-checkpoint-published', case, {'lines': lines, 'complete': complete})
+        if r2['result'] != b['result']:
+            rep.fail('next-run-differs-after-failure', case, {'rows': [len(x) for x in (r2['result'] or {}).get('rows', [])]})
     shutil.rmtree(base, ignore_errors=True)
 
 
